@@ -237,3 +237,105 @@ def value_of(expr, fn, depth=8):
                 return ast.copy_location(V(self.d - 1).visit(e), n)
             return n
     return V(depth).visit(copy.deepcopy(expr))
+
+
+def all_defs(fn):
+    """{local name: [value expressions]} over all plain bindings of the
+    locals of `fn` (tuple unpacking is split element-wise; unpacking of a
+    non-tuple value `a, b = v` gives v[0], v[1]); names with any other kind
+    of binding (loop target, augmented assignment, parameter, ...) map to
+    None."""
+    out, bad = {}, set()
+    for a in ast.walk(fn.args):
+        if isinstance(a, ast.arg):
+            bad.add(a.arg)
+    for n in walk_local(fn):
+        if isinstance(n, ast.Assign):
+            for t in n.targets:
+                if isinstance(t, ast.Name):
+                    out.setdefault(t.id, []).append(n.value)
+                elif isinstance(t, (ast.Tuple, ast.List)) and all(
+                        isinstance(e, ast.Name) for e in t.elts):
+                    if isinstance(n.value, (ast.Tuple, ast.List)) and len(
+                            n.value.elts) == len(t.elts):
+                        for e, v in zip(t.elts, n.value.elts):
+                            out.setdefault(e.id, []).append(v)
+                    else:
+                        for i, e in enumerate(t.elts):
+                            out.setdefault(e.id, []).append(ast.copy_location(
+                                ast.Subscript(n.value, ast.Constant(i),
+                                              ast.Load()), n.value))
+                else:
+                    for x in ast.walk(t):
+                        if isinstance(x, ast.Name) and isinstance(
+                                x.ctx, ast.Store):
+                            bad.add(x.id)
+        elif isinstance(n, (ast.AugAssign, ast.AnnAssign, ast.Delete)):
+            for x in ast.walk(n.target if not isinstance(n, ast.Delete)
+                              else ast.Tuple(n.targets, ast.Del())):
+                if isinstance(x, ast.Name) and isinstance(
+                        x.ctx, (ast.Store, ast.Del)):
+                    bad.add(x.id)
+        elif isinstance(n, ast.For):
+            for x in ast.walk(n.target):
+                if isinstance(x, ast.Name):
+                    bad.add(x.id)
+        elif isinstance(n, ast.With):
+            for i in n.items:
+                if i.optional_vars is not None:
+                    for x in ast.walk(i.optional_vars):
+                        if isinstance(x, ast.Name):
+                            bad.add(x.id)
+        elif isinstance(n, ast.ExceptHandler) and n.name:
+            bad.add(n.name)
+        elif isinstance(n, ast.comprehension):
+            for x in ast.walk(n.target):
+                if isinstance(x, ast.Name):
+                    bad.add(x.id)
+    return {k: (None if k in bad else v) for k, v in out.items()}
+
+
+def values_of(expr, fns, depth=6, limit=16):
+    """All expressions `expr` may stand for when the locals of the enclosing
+    functions `fns` (innermost first) are replaced by what they are bound to
+    -- a name with several plain bindings gives several values.  Returns a
+    list of expressions (at most `limit`; a name with another kind of
+    binding stays as it is)."""
+    import copy
+    import itertools
+    tables = []
+    for f in fns:
+        d = getattr(f, '_all_defs', None)
+        if d is None:
+            d = f._all_defs = all_defs(f)
+        tables.append(d)
+
+    def lookup(name):
+        for d in tables:
+            if name in d:
+                return d[name]
+        return None
+
+    def expand(e, dep):
+        names = []
+        for x in ast.walk(e):
+            if isinstance(x, ast.Name) and isinstance(x.ctx, ast.Load) and \
+                    x.id not in names and lookup(x.id):
+                names.append(x.id)
+        if not names or dep <= 0:
+            return [e]
+        outs = []
+        choices = [lookup(nm) for nm in names]
+        for combo in itertools.islice(itertools.product(*choices), limit):
+            m = dict(zip(names, combo))
+
+            class V(ast.NodeTransformer):
+                def visit_Name(self, n):
+                    if isinstance(n.ctx, ast.Load) and n.id in m:
+                        return ast.copy_location(copy.deepcopy(m[n.id]), n)
+                    return n
+            outs.extend(expand(V().visit(copy.deepcopy(e)), dep - 1))
+            if len(outs) >= limit:
+                break
+        return outs[:limit]
+    return expand(expr, depth)
